@@ -142,7 +142,8 @@ def main():
 
     try:
 
-        cli(sys.argv)
+        with msg_prefix('c '):
+            cli(sys.argv)
 
     except ValueError as e:
         error_msg("DIMACS ERROR: " + str(e))
